@@ -1,6 +1,6 @@
 (* Rt/OpenTypeContainerProofs.v — the container-exhaustion rule of the open-type readers. *)
 From Coq Require Import ZArith List Bool Lia.
-From A1 Require Import Base.Bytes Rt.Types Rt.Uper Rt.UperCounted Rt.Oer Rt.OpenType Rt.OpenTypeContainer.
+From A1 Require Import Base.Bytes Rt.Types Rt.Uper Rt.UperBits Rt.UperCounted Rt.Oer Rt.OpenType Rt.OpenTypeContainer.
 Import ListNotations.
 Local Open Scope Z_scope.
 
@@ -53,8 +53,8 @@ Qed.
 
 Lemma bytes_bits_length : forall bytes, length (bytes_bits bytes) = (8 * length bytes)%nat.
 Proof.
-  induction bytes as [|b tl IH]; [reflexivity|]. unfold bytes_bits in *. cbn [map concat]. rewrite app_length, IH.
-  unfold byte_bits. rewrite nbits_length. lia.
+  unfold bytes_bits. induction bytes as [|b tl IH]; [reflexivity|].
+  cbn [flat_map length]. rewrite app_length, IH. unfold byte_bits. rewrite nbits_length. lia.
 Qed.
 
 (* on the wire: ANY container of whole octets behind its length determinant, read by the frame model's reader:
